@@ -446,6 +446,7 @@ pub fn run_cli(args: &[String]) -> i32 {
     if tier != "quick" && tier != "thorough" {
         tier = "quick".into();
     }
+    crate::mon::THOROUGH.store(tier == "thorough", std::sync::atomic::Ordering::Relaxed);
     if id == "LIST" {
         for d in defs() {
             println!("{}", d.id);
